@@ -36,6 +36,7 @@ pub fn binary_profile(max_nodes: usize) -> ForestProfile {
         // to know the blob is an attribute map). Outside C01's domain.
         exclude_unknown_types: vec![rbx_types::VariantType::Attributes],
         multi_spelling: false,
+        non_serializing: true,
     }
 }
 
@@ -46,9 +47,14 @@ pub fn write_binary(
 ) -> Result<Vec<u8>, Fail> {
     let mut out = Vec::new();
     let res = no_panic("rbx_binary serializer", || {
-        rbx_binary::Serializer::new()
-            .compression_type(comp)
-            .serialize(&mut out, dom, roots)
+        // the same settings through every call chain the builder API allows (all mean the same)
+        let db = rbx_reflection_database::get();
+        let ser = match (roots.len() + dom.root().children().len()) % 3 {
+            0 => rbx_binary::Serializer::new().compression_type(comp),
+            1 => rbx_binary::Serializer::new().compression_type(comp).reflection_database(db),
+            _ => rbx_binary::Serializer::new().reflection_database(db).compression_type(comp),
+        };
+        ser.serialize(&mut out, dom, roots)
     })?;
     match res {
         Ok(()) => Ok(out),
@@ -101,6 +107,9 @@ pub fn classify_forest(f: &GForest, ctx: &mut CaseCtx) {
             .entry(node.class.as_str())
             .or_default()
             .push(node.props.iter().map(|p| p.0.as_str()).collect());
+        if node.props.iter().any(|(name, _)| crate::dbview::resolve(&node.class, name).map(|v| v.ser.is_none() && v.migration.is_none()).unwrap_or(false)) {
+            ctx.label("has_non_serializing_property");
+        }
         for (_, v) in &node.props {
             if v.has_nonfinite() {
                 ctx.label("has_nonfinite_float");
@@ -173,6 +182,13 @@ fn attr_blob(v: &GVal) -> Option<Vec<u8>> {
 
 pub fn roundtrip_body(f: &GForest, ctx: &mut CaseCtx) -> PropResult {
     classify_forest(f, ctx);
+    // one case in eight runs after failed saves on this thread (state surviving a failed call would corrupt this save)
+    {
+        let h = f.nodes.len() as u64 * 31 + f.nodes.iter().map(|n| n.props.len() as u64 * 7 + n.name.len() as u64).sum::<u64>();
+        if h % 8 == 3 && super::c07::provoke_failed_saves(h.wrapping_mul(0x9E37_79B9_7F4A_7C15)) > 0 {
+            ctx.label("after_failed_saves_on_this_thread");
+        }
+    }
     let built = forest::build(f, BuildMode::Builder, None);
     let roots = built.root_refs(f);
     let exp = oracle::expect_roundtrip(f, Format::Binary, &attr_blob);
@@ -188,6 +204,62 @@ pub fn roundtrip_body(f: &GForest, ctx: &mut CaseCtx) -> PropResult {
         let act = forest::observe(&decoded);
         if let Err((key, msg)) = oracle::compare_dom(&exp, &act, &Norm::binary()) {
             fail!(format!("roundtrip:{key}"), "[{cname}] {msg}");
+        }
+        ctx.add_evals(1);
+        if comp == CompressionType::default() {
+            // the convenience entry points are the same codec as the configurable ones
+            let mut out = Vec::new();
+            no_panic("rbx_binary::to_writer", || rbx_binary::to_writer(&mut out, &built.dom, &roots))?
+                .map_err(|e| Fail::new("entry-points:to_writer-rejects", e.to_string()))?;
+            ensure!(out == bytes, "entry-points:to_writer-differs", "to_writer and Serializer::new() with the default compression write different files");
+            let d = no_panic("rbx_binary::Deserializer", || rbx_binary::Deserializer::new().deserialize(bytes.as_slice()))?
+                .map_err(|e| Fail::new("entry-points:deserializer-rejects", e.to_string()))?;
+            // (judged by the same oracle, not by equality with the first decode: ids regenerated on a collision are random)
+            if let Err((key, msg)) = oracle::compare_dom(&exp, &forest::observe(&d), &Norm::binary()) {
+                fail!(format!("entry-points:deserializer:{key}"), "Deserializer::new().deserialize, unlike from_reader: {msg}");
+            }
+        }
+    }
+    Ok(())
+}
+
+/// One `Serializer` and one `Deserializer` value used for several files in a row: what they did for
+/// an earlier file must not influence a later one.
+#[derive(Clone, Debug, Serialize, Deserialize)]
+pub struct ReuseCase {
+    pub forests: Vec<GForest>,
+}
+
+fn reuse_body(case: &ReuseCase, ctx: &mut CaseCtx) -> PropResult {
+    let ser = rbx_binary::Serializer::new();
+    let de = rbx_binary::Deserializer::new();
+    // the same (class, property) of an unknown class carrying two different types in two files
+    let mut seen: std::collections::HashMap<(String, String), rbx_types::VariantType> = std::collections::HashMap::new();
+    let mut conflict = false;
+    for f in &case.forests {
+        for n in &f.nodes {
+            for (p, v) in &n.props {
+                if let Some(t) = seen.insert((n.class.clone(), p.clone()), v.ty()) {
+                    conflict |= t != v.ty();
+                }
+            }
+        }
+    }
+    ctx.label_if(conflict, "one_property_name_with_two_types_across_files");
+    ctx.nontrivial_if(conflict || case.forests.len() >= 3);
+    for (i, f) in case.forests.iter().enumerate() {
+        let built = forest::build(f, BuildMode::Builder, None);
+        let roots = built.root_refs(f);
+        let exp = oracle::expect_roundtrip(f, Format::Binary, &attr_blob);
+        let fresh = write_binary(&built.dom, &roots, CompressionType::default())?;
+        let mut bytes = Vec::new();
+        no_panic("reused Serializer", || ser.serialize(&mut bytes, &built.dom, &roots))?
+            .map_err(|e| Fail::new("reuse:serializer-rejects", format!("file #{i}: a reused Serializer rejects what a fresh one writes: {e}")))?;
+        ensure!(bytes == fresh, "reuse:serializer-output-differs", "file #{i}: a Serializer used for earlier files writes other bytes than a fresh one ({} vs {})", bytes.len(), fresh.len());
+        let d = no_panic("reused Deserializer", || de.deserialize(bytes.as_slice()))?
+            .map_err(|e| Fail::new("reuse:deserializer-rejects", format!("file #{i}: a reused Deserializer rejects a file a fresh one reads: {e}")))?;
+        if let Err((key, msg)) = oracle::compare_dom(&exp, &forest::observe(&d), &Norm::binary()) {
+            fail!(format!("reuse:deserializer:{key}"), "file #{i}, read by a Deserializer that read {i} file(s) before: {msg}");
         }
         ctx.add_evals(1);
     }
@@ -213,6 +285,26 @@ pub fn large_forest(c: &LargeCase) -> GForest {
                 "SharedString" => ("ZzLarge", "Shared", GVal::SharedString((0..*n).map(|i| (i * 7 % 253) as u8).collect()), GVal::SharedString(vec![1, 2, 3])),
                 "NumberSequence" => ("ZzLarge", "Seq", super::c14::long_value(kind, *n), GVal::NumberSequence(vec![[0, 0, 0], [1f32.to_bits(), 0, 0]])),
                 "ColorSequence" => ("ZzLarge", "Colors", super::c14::long_value(kind, *n), GVal::ColorSequence(vec![(0, [0, 0, 0]), (1f32.to_bits(), [0, 0, 0])])),
+                "ContentId" => ("ZzLarge", "Link", GVal::ContentId(format!("rbxasset://{}", "x".repeat(*n))), GVal::ContentId("rbxassetid://1".into())),
+                "ContentUri" => (
+                    "ZzLarge",
+                    "Pic",
+                    GVal::Content(vals::GContent::Uri(format!("rbxasset://{}", "y".repeat(*n)))),
+                    GVal::Content(vals::GContent::Uri("rbxassetid://2".into())),
+                ),
+                "Incompressible" => {
+                    // xorshift bytes: the compressed chunk stays as long as the data
+                    let mut x = 0x2545_F491_4F6C_DD1Du64;
+                    let bytes: Vec<u8> = (0..*n)
+                        .map(|_| {
+                            x ^= x << 13;
+                            x ^= x >> 7;
+                            x ^= x << 17;
+                            (x >> 32) as u8
+                        })
+                        .collect();
+                    ("ZzLarge", "Noise", GVal::BinaryString(bytes), GVal::BinaryString(vec![7]))
+                }
                 _ => ("ZzLarge", "Blob", super::c14::long_value("BinaryString", *n), GVal::BinaryString(vec![9])),
             };
             vec![
@@ -410,14 +502,29 @@ pub fn run(ctx: &Ctx) -> PropertyReport {
         rep.push(r);
     }
 
+    if sub.runs("reused-codecs") {
+        let cases = ctx.cfg.cases(10_000, 300_000);
+        let strat = || {
+            let mut p = binary_profile(5);
+            p.known_classes = false;
+            proptest::collection::vec(prop_oneof![3 => forest::forest(p.clone()), 1 => forest::forest(binary_profile(5))], 2..5).prop_map(|forests| ReuseCase { forests })
+        };
+        let mut r = ctx.run_prop("reused-codecs", cases, strat, reuse_body);
+        r.floor("one_property_name_with_two_types_across_files", cases / 20);
+        rep.push(r);
+    }
+
     if sub.runs("large") {
         let mut cases = Vec::new();
-        for kind in ["String", "BinaryString", "SharedString", "NumberSequence", "ColorSequence"] {
+        for kind in ["String", "BinaryString", "SharedString", "NumberSequence", "ColorSequence", "ContentId", "ContentUri"] {
             for n in super::c14::LONG_LENGTHS {
                 cases.push(LargeCase::LongValue { kind: kind.to_string(), n: *n });
             }
         }
         cases.push(LargeCase::LongValue { kind: "BinaryString".into(), n: 1_100_000 });
+        // one chunk of more than 2^24 incompressible bytes (32-bit length arithmetic)
+        cases.push(LargeCase::LongValue { kind: "Incompressible".into(), n: 70_000 });
+        cases.push(LargeCase::LongValue { kind: "Incompressible".into(), n: (1 << 24) + 4099 });
         for n in [65_535usize, 65_536, 65_537, 70_001] {
             cases.push(LargeCase::ManyInstances { n });
         }
